@@ -229,3 +229,36 @@ CHECKS = {
 }
 
 NOT_YET = {}
+
+
+# what the third strengthening round added (appended to the texts above)
+_ADDED = {
+    "C02": ("S+N+T", " Added: an unexposed function in the instance dict shadowing an exposed method; nothing advertised may be refused; the advertised list after an inspection that "
+                     "failed half way (a class-level descriptor raising 1-2 times); and every schedule (line granularity in _get_exposed_members, preemption bound 1-2) of 2-3 "
+                     "threads inspecting a fresh class at once - each must be told the served set."),
+    "C08": (None, " Added: falsy object ids (None, '', 0, []), a validator that decides per peer, and a rejected and an accepted handshake racing on the thread-pool server with "
+                  "every line of Daemon._handshake a scheduling point (preemption bound 1-2)."),
+    "C09": (None, " Added: every sequence (length <= 4 / 6) of {call via daemon A, call via daemon B, shut A down and start a new daemon} with two daemons of one process serving the "
+                  "same class: one 'single' instance and one creator call per daemon."),
+    "C18": ("T+N", " Added: jobs that end with an exception (no worker may stay counted busy afterwards); and a whole-system part: the real thread-pool server with all "
+                   "THREADPOOL_SIZE (1-2) workers held by connected clients and a further peer with 11 kinds of first message, which must read a connect-failure naming the "
+                   "workers followed by end of stream while the connected clients stay served, under message-level interleavings."),
+    "C04": (None, " Added: near-miss namespaces of every trusted namespace (each importable as a logged canary module through a meta-path finder), serializer-like tags, and class "
+                  "dicts nested in a Proxy state or used as args / attributes of an exception (17 member variants)."),
+    "C12": (None, " Added steps: a oneway call whose connection is reset before the daemon reads it (peer address must be the caller's or None) and a raw peer whose first message "
+                  "is refused (its CONNECTFAIL carries no annotation)."),
+    "C13": (None, " Added: connection A owning 1-2 unfinished item streams, ITER_STREAM_LINGER 0 / 30 (with linger 0 the stream table must be empty at rest)."),
+    "C16": (None, " Added: the return leg also through a client speaking another serializer than the daemon's; pool classes are created per replay (serializer type hooks are "
+                  "process-global); below depth 2 the pool objects compare equal to everything, so identity and not equality must decide."),
+    "C10": (None, " Added: the step 'connection reset underneath the proxy'; the client-side iterator/proxy condition is part of the state identity."),
+    "C11": (None, " Added: two raising methods whose exception content only some serializers carry, and 4-8 daemon/client serializer mismatches (shorter sequences)."),
+    "C03": (None, " Added: histories with a oneway batch followed by re-use of the same BatchProxy."),
+    "C05": (None, " Added: methods and callback methods raising Exception subclasses that cannot even be printed (str/repr raising or returning a non-string)."),
+    "C07": (None, " Added: attribute dictionaries with tuples, PEP 678 notes and dunder / private / non-ascii / odd names (6 shapes)."),
+    "C06": (None, " A decoder call that neither accepts nor refuses within 2 s of real time is reported as non-terminating."),
+    "C19": (None, " Added: tags and names ending in '@', an empty location; a text form that raises is a violation."),
+}
+for _id, (_engine, _more) in _ADDED.items():
+    if _engine:
+        CHECKS[_id]["engine"] = _engine
+    CHECKS[_id]["text"] += _more
